@@ -68,6 +68,7 @@ var pipeHosts = map[string]string{
 	"unspec4": "0.0.0.0", "unspec6": "[::]", "unspec6b": "[::0]", "unspec6c": "[0:0:0:0:0:0:0:0]",
 	"mapped4": "[::ffff:127.0.0.1]", "mapped4hex": "[::ffff:7f00:1]",
 	"mappedUnspec": "[::ffff:0.0.0.0]", "mappedUnspecHex": "[::ffff:0:0]", "mappedUnspecLong": "[0:0:0:0:0:ffff:0:0]",
+	"lo6zone": "[::1%25lo]", "lhDot": "localhost.",
 }
 
 func localhostAlias() string {
@@ -231,6 +232,12 @@ func pacString(v string) string {
 		return ret("DIRECT; PROXY " + addrA)
 	case "blank_A_blank":
 		return ret("  PROXY " + addrA + "  ; DIRECT")
+	case "PROXY_emptyhost":
+		return ret("PROXY :3128")
+	case "PROXY_signedport":
+		return ret("PROXY proxya.test:+3128")
+	case "PROXY_portrange":
+		return ret("PROXY proxya.test:99999")
 	case "throws":
 		return `function FindProxyForURL(url, host) { throw new Error("boom"); }`
 	case "nonString":
@@ -304,6 +311,8 @@ func connectToRules(class, sh, sp string) []string {
 		return []string{"::" + R, sh + ":" + sp + ":" + R2}
 	case "portOnlyRewrite":
 		return []string{sh + ":" + sp + "::7777"}
+	case "exactOtherCase":
+		return []string{strings.ToUpper(sh) + ":" + sp + ":" + R}
 	}
 	fatal("unknown connect-to class %q", class)
 	return nil
@@ -387,7 +396,7 @@ func newPipeEnv(fc fwdCfg, alias string) (*pipeEnv, error) {
 		all["lhAlias"] = alias
 	}
 	for _, h := range all {
-		hh := strings.Trim(h, "[]")
+		hh := strings.ReplaceAll(strings.Trim(h, "[]"), "%25", "%") // the zone is percent-encoded in a URL only
 		f.mapName(net.JoinHostPort(hh, "80"), o.addr())
 		f.mapName(net.JoinHostPort(hh, "8080"), o.addr())
 		f.mapName(net.JoinHostPort(hh, "443"), ot.addr())
